@@ -1,5 +1,6 @@
 import RpycModel.Wire.Recv
 import RpycModel.Wire.Send
+import RpycModel.Wire.DuplexLemmas
 /-
 C05 — packets arrive whole, in order and unaltered under any fragmentation.
 
@@ -233,6 +234,120 @@ theorem transfer_safe (z : Zlib) (c retry : Bool) (maxS maxR n : Nat) (hS : Gen.
   · exact Or.inr (Or.inl h)
   · exact Or.inr (Or.inr a)
 
+/-! ### one stream used in both directions, `poll`, and a descriptor whose own `close()` fails
+
+`Rpyc.Wire.Duplex`: `Channel.send`, `Channel.recv`, `Stream.poll` (with `SocketStream.fileno`) and
+`stream.close()` on ONE stream object in any order, continuing after exceptions; `CloseFault` makes
+`sock.close()` / `incoming.close()` / `outgoing.close()` raise once. -/
+
+/-- **Interleaving and failing `close()` cannot alter a packet.** Whenever `recv()` returns a packet on the
+duplex stream — after any sequence of sends, polls, closes and failures — the one-directional
+`recvPacket` returns the same packet from the same reading state and leaves the same reading state, so
+theorems (3) and (4) speak about every packet ever returned. -/
+theorem duplex_recv_is_recvPacket (z : ZlibFns) (retry : Bool) (maxChunk : Nat) (d : DState) (p : Bytes)
+    (h : (dRecv z retry maxChunk d).1 = .ok p) :
+    (recvPacket z retry maxChunk d.r).1 = .ok p ∧
+    (dRecv z retry maxChunk d).2.r = (recvPacket z retry maxChunk d.r).2 :=
+  dRecv_ok z retry maxChunk d p h
+
+/-- `send` — returning, raising or blocked — leaves the incoming byte stream and its script untouched -/
+theorem send_transparent_to_reading (z : ZlibFns) (c : Bool) (maxChunk : Nat) (p : Bytes) (d : DState) :
+    (dSend z c maxChunk p d).2.r.wire = d.r.wire ∧ (dSend z c maxChunk p d).2.r.script = d.r.script :=
+  dSend_reading z c maxChunk p d
+
+/-- `Stream.poll` — answering, raising or blocked — reads nothing and sends nothing -/
+theorem poll_transparent (d : DState) :
+    (dPoll d).2.r.wire = d.r.wire ∧ (dPoll d).2.r.script = d.r.script ∧
+    (dPoll d).2.w.chunks = d.w.chunks ∧ (dPoll d).2.w.script = d.w.script :=
+  dPoll_streams d
+
+/-- when `poll` answers, the stream is exactly as before (only the poll script has moved) -/
+theorem poll_answer_changes_nothing (d : DState) (b : Bool) (h : (dPoll d).1 = .ok b) :
+    (dPoll d).2.r = d.r ∧ (dPoll d).2.w = d.w ∧ (dPoll d).2.fault = d.fault ∧
+    (dPoll d).2.inDead = d.inDead ∧ (dPoll d).2.outDead = d.outDead :=
+  dPoll_ok d b h
+
+/-- How `poll` can end.  `EOFError` comes with a closed stream; but a failure noticed BY POLL ITSELF — a
+failing `poll()` call, a refused descriptor, a non-EBADF error of `fileno()` — is an `OSError`
+(`select_error` / the socket error), NOT `EOFError`, and (see `poll_failure_is_not_eof_closed`) may leave the
+stream open.  On kernel sockets and pipes a dead peer makes `poll()` ANSWER (readable), so that the failure
+is met by the following `read` (kernel probes in the evidence); these poll-error paths need a descriptor
+invalidated by the application itself, which is outside "a transport that ends or fails". -/
+theorem poll_outcome (d : DState) :
+    (∃ b, (dPoll d).1 = .ok b) ∨ ((dPoll d).1 = .eof ∧ (dPoll d).2.r.closed = true) ∨
+    (dPoll d).1 = .oserr ∨ (dPoll d).1 = .starved ∨ (dPoll d).1 = .other .notModelled :=
+  dPoll_outcome d
+
+/-- a healthy open socket stream to start the witnesses below from -/
+def freshSock (wire : Bytes) (rs : List RecvEv) (ps : List PollEv) (fault : CloseFault) : DState :=
+  ⟨⟨wire, rs, false⟩, ⟨[], [], false⟩, false, fault, false, false, ps⟩
+
+/-- what "a failure noticed in poll yields EOFError + closed" would say — and its witnesses: (a) a failing
+`poll()` call: `OSError`, stream left open; (b) `fileno()` failing with ECONNRESET: `OSError`, stream closed;
+(c) `fileno()` failing with EBADF: `EOFError`, closed (the one case the code maps). -/
+theorem poll_failure_is_not_eof_closed :
+    (dPoll (freshSock [] [] [.selErr 5] .none)).1 = .oserr ∧ (dPoll (freshSock [] [] [.selErr 5] .none)).2.r.closed = false ∧
+    (dPoll (freshSock [] [] [.fdErr 104] .none)).1 = .oserr ∧ (dPoll (freshSock [] [] [.fdErr 104] .none)).2.r.closed = true ∧
+    (dPoll (freshSock [] [] [.fdErr Gen.ebadf] .none)).1 = .eof
+      ∧ (dPoll (freshSock [] [] [.fdErr Gen.ebadf] .none)).2.r.closed = true := by
+  refine ⟨?_, ?_, ?_, ?_, ?_, ?_⟩ <;> decide
+
+/-- the descriptor's own `close()` raising inside the failure path of `read`: the peer resets, `sock.close()`
+raises — the reader gets that `OSError`, NOT `EOFError`, and `stream.closed` stays `False`; the next `read`
+finds the dead descriptor, closes cleanly and raises `EOFError`.  No byte of a packet is involved. -/
+theorem close_failure_is_not_eof_closed :
+    (dRead true 64000 3 (freshSock [1, 2, 3] [.chunk 1, .err 104] [] .first)).1 = .oserr ∧
+    (dRead true 64000 3 (freshSock [1, 2, 3] [.chunk 1, .err 104] [] .first)).2.r.closed = false ∧
+    (dRead true 64000 3 (dRead true 64000 3 (freshSock [1, 2, 3] [.chunk 1, .err 104] [] .first)).2).1 = .eof ∧
+    (dRead true 64000 3 (dRead true 64000 3 (freshSock [1, 2, 3] [.chunk 1, .err 104] [] .first)).2).2.r.closed = true := by
+  refine ⟨?_, ?_, ?_, ?_⟩ <;> decide
+
+/-! ### the clause "whatever transient would-block or timeout conditions it reports", socket vs. pipe -/
+
+/-- an event that is not a failure by the statement's wording: data, a timeout, a would-block -/
+def transient : RecvEv → Bool
+  | .chunk k => decide (1 ≤ k)
+  | .timeout => true
+  | .err e => retryErrno e
+  | .eof => false
+
+/-- the clause at full strength for a stream class: under any script of transient events with enough data
+events, `read(n)` returns the next `n` bytes -/
+def C05_transients_statement (retry : Bool) : Prop :=
+  ∀ (maxChunk n : Nat) (wire : Bytes) (script : List RecvEv), 1 ≤ maxChunk → script.all transient = true →
+    n ≤ wire.length → n ≤ progress script →
+    (readExact retry maxChunk n ⟨wire, script, false⟩).1 = .ok (wire.take n)
+
+/-- sockets (`SocketStream.read` retries): the clause holds -/
+theorem C05_transients_socket : C05_transients_statement true := by
+  intro maxChunk n wire script hmax hb hw hp
+  have hb' : script.all (benign true) = true := by
+    rw [List.all_eq_true] at hb ⊢
+    intro ev hev
+    have := hb ev hev
+    cases ev <;> simp_all [benign, transient]
+  exact (readExact_complete true maxChunk hmax n ⟨wire, script, false⟩ hb' rfl hw hp).1
+
+/-- the platform's EAGAIN (first entry of `retry_errnos`) -/
+def eagain : Nat := Gen.retryErrnos.headD 0
+
+/-- pipes (`PipeStream.read` has no retry): the clause FAILS by the letter — one would-block from `os.read`
+and the stream is closed with `EOFError`, the packet lost although its bytes were on their way.  Reachable on a
+real pipe only if O_NONBLOCK is set on the read end (by the application, or through a shared open file
+description); rpyc creates its pipes blocking and never sets it (demonstration in the evidence, on a real pipe). -/
+theorem C05_pipe_wouldblock_counterexample : ¬ C05_transients_statement false := by
+  intro h
+  have := h 1 1 [0] [.err eagain, .chunk 1] (by decide) (by decide) (by decide) (by decide)
+  revert this
+  decide
+
+/-- what does hold for pipes: theorems (3) and `transfer_exact` with `retry = false`, i.e. for scripts of
+data events only (a blocking pipe shows no others); and the safety theorems (4) for every script. -/
+theorem C05_pipe_partial (maxChunk : Nat) (hmax : 1 ≤ maxChunk) (n : Nat) (wire : Bytes) (script : List RecvEv)
+    (hb : script.all (benign false) = true) (hw : n ≤ wire.length) (hp : n ≤ progress script) :
+    (readExact false maxChunk n ⟨wire, script, false⟩).1 = .ok (wire.take n) :=
+  (readExact_complete false maxChunk hmax n ⟨wire, script, false⟩ hb rfl hw hp).1
+
 /-! ### non-vacuity: concrete instances meet the hypotheses; the model computes the expected runs
 
 The samples are phrased over the generated constants (threshold, header size, flusher, errnos), so a
@@ -246,8 +361,7 @@ def toyZ : Zlib where
     | _ => none
   round_trip b := by simp
 
-/-- the platform's EAGAIN and the errno the interpreter turns into `socket.timeout` -/
-def eagain : Nat := Gen.retryErrnos.headD 0
+/-- the errno the interpreter turns into `socket.timeout` -/
 def etimedout : Nat := Gen.timeoutErrnos.headD eagain
 
 /-- packets: empty, tiny, and one above the compression threshold (so it travels compressed) -/
